@@ -1,6 +1,7 @@
 import N0Verif.Proofs.Tlv
 import N0Verif.Proofs.Fwf
 import N0Verif.Proofs.TlvGenEq
+import N0Verif.Proofs.TlvGenWriterEq
 /-!
 # C16 — positional record codecs (TLV, fixed-width) round-trip, refuse, and terminate
 
@@ -303,6 +304,41 @@ theorem C16_tlv_terminates_generated (s : Str) (tl ll : Nat) :
   refine ⟨?_, by simpa [TlvGenEq.viewRes] using h2⟩
   rcases h1 with h1 | h1 <;> simp [TlvGenEq.viewRes, TlvGenEq.statusOpt, h1]
 
+/-! ## the definitions regenerated from the Python source of `generate_tlv` equal the hand-written model
+
+`Gen/TlvGenPy.lean` is rewritten by `harness/translate_py_tlvgen.py` on every run (the element of the generator
+expression, the `''.join(… for …)`, the statements in front of the `return`); these theorems are re-checked against the
+new text.  Scope, as in the model: field widths are natural numbers, the paddings are single characters (the
+translated code takes them as `str`: `[tp]`, `[lp]`). -/
+
+/-- **generated entry = model entry**: the width checks (which one raises, in which order), `ljust` of the tag,
+`rjust` of the decimal length, the concatenation -/
+theorem C16_generated_gen_entry_eq (d : List (Str × Str)) (tl ll : Nat) (tp lp : Char) (tag value : Str) :
+    Gen.TlvGenPy.GenerateTlv.entry d tl ll [tp] [lp] tag value = genEntry tl ll tp lp tag value :=
+  TlvGenWriterEq.entry_eq d tl ll tp lp tag value
+
+/-- **generated `''.join(entry for tag, value in d.items())` = model**, for every list of entries -/
+theorem C16_generated_gen_entries_eq (d0 d : List (Str × Str)) (tl ll : Nat) (tp lp : Char) :
+    Gen.TlvGenPy.joinMapE (fun p => Gen.TlvGenPy.GenerateTlv.entry d0 tl ll [tp] [lp] p.1 p.2) d
+      = genEntries tl ll tp lp d :=
+  TlvGenWriterEq.entries_eq d0 tl ll tp lp d
+
+/-- **generated readability guard = `lenPadOk`**: the statements in front of the `return` raise `AssertionError`
+exactly when the probe of the one-character `len_padding` fails (widths and tag padding are not looked at) -/
+theorem C16_generated_gen_guard_eq (d : List (Str × Str)) (tl ll : Int) (tp : Str) (lp : Char) :
+    Gen.TlvGenPy.GenerateTlv.guard d tl ll tp [lp] = if lenPadOk lp then .ok () else .error .AssertionError :=
+  TlvGenWriterEq.guard_eq d tl ll tp lp
+
+/-- a `len_padding` that is not one character is not probed by the generated guard -/
+theorem C16_generated_gen_guard_skips (d : List (Str × Str)) (tl ll : Int) (tp lp : Str) (h : lp.length ≠ 1) :
+    Gen.TlvGenPy.GenerateTlv.guard d tl ll tp lp = .ok () :=
+  TlvGenWriterEq.guard_skips d tl ll tp lp h
+
+/-- **generated `generate_tlv` = model `generateTlv`** -/
+theorem C16_generated_gen_eq (d : List (Str × Str)) (tl ll : Nat) (tp lp : Char) :
+    Gen.TlvGenPy.generateTlv d tl ll [tp] [lp] = generateTlv tl ll tp lp d :=
+  TlvGenWriterEq.generateTlv_eq d tl ll tp lp
+
 /-! Non-vacuity -/
 example : pyInt [] = none := by decide
 example : pyInt " +1_0\t".toList = some 10 := by decide
@@ -586,5 +622,20 @@ example : parseRow "-007.abc".toList (exLayout.map (readBack true)) true
 example : Gen.TlvPy.parseTlv "A 001xBB011hello world".toList 2 3 23
     = ([("A ".toList, 1, "x".toList), ("BB".toList, 11, "hello world".toList)], none) := by decide +kernel
 example : (Gen.TlvPy.parseTlv "AA-05".toList 2 3 6).2 = some .ValueError := by decide +kernel
+
+-- the generated writer: both width checks, both paddings, the guard (accepting, refusing, skipping)
+example : Gen.TlvGenPy.GenerateTlv.entry [] 2 3 [' '] ['0'] "A".toList "hello world".toList
+    = .ok "A 011hello world".toList := by decide +kernel
+example : Gen.TlvGenPy.GenerateTlv.entry [] 2 3 [' '] ['0'] "ABC".toList "x".toList = .error .AssertionError := by
+  decide +kernel
+example : Gen.TlvGenPy.GenerateTlv.entry [] 2 1 [' '] ['0'] "A".toList "hello world".toList
+    = .error .AssertionError := by decide +kernel
+example : Gen.TlvGenPy.GenerateTlv.guard [] 2 3 [' '] ['0'] = .ok () := by decide +kernel
+example : Gen.TlvGenPy.GenerateTlv.guard [] 2 3 [' '] ['x'] = .error .AssertionError := by decide +kernel
+example : Gen.TlvGenPy.GenerateTlv.guard [] 2 3 [' '] "xy".toList = .ok () := by decide +kernel
+example : Gen.TlvGenPy.generateTlv [("A".toList, "x".toList), ("BB".toList, "hello world".toList)] 2 3 [' '] [' ']
+    = .ok "A   1xBB 11hello world".toList := by decide +kernel
+example : Gen.TlvGenPy.generateTlv [("A".toList, "x".toList), ("BBB".toList, "y".toList)] 2 3 [' '] ['0']
+    = .error .AssertionError := by decide +kernel
 
 end N0.C16
